@@ -144,9 +144,11 @@ def int_cases(chk, rng):
         nb = rng.randint(2, 5)
         width = rng.choice([1, 2, 3, 4])
         lo = rng.choice([0, 2, -4])
+        if i % 8 == 7:
+            nb, width = rng.choice([255, 256, 257]) if i % 16 == 7 else 256, 1         # bin counts around the capacity of an 8-bit index
         edges = [lo + k * width for k in range(nb + 1)]
         classes = rng.choice([[0, 1], [2, 0, 1], [0, 1, 2, 3], [5, 0, 300]])
-        grid = list(range(lo - 2, lo + nb * width + 3))
+        grid = list(range(lo - 2, lo + nb * width + 3)) if nb < 200 else [lo - 2, lo - 1, lo, lo + 1, lo + 100, lo + nb - 1, lo + nb, lo + nb + 1, lo + nb + 40]
         S, W = rng.choice([(1, 1), (2, 1), (2, 2), (3, 1)])
         nrows = rng.randint(1, 6) if i % 3 else rng.randint(6, 14)
         dvals = classes + ([77] if i % 2 else [])
@@ -162,8 +164,8 @@ def int_cases(chk, rng):
     for ci, (case, rs) in enumerate(zip(cases, res)):
         dt, sc = pres[ci % len(pres)]
         c = case['c']
-        if dt == 'uint8' and (min(c['edges']) < 2 or True) and min(min(r['t']) for r in case['rows']) < 0:
-            dt = 'int16'
+        if dt == 'uint8' and (min(min(r['t']) for r in case['rows']) < 0 or max(max(r['t']) for r in case['rows']) > 255):
+            dt = 'int16'          # the presentation must hold the values
         t = (np.array([r['t'] for r in case['rows']], dtype='float64') * sc).astype(dt)
         d = np.array([r['d'] for r in case['rows']], dtype='uint16')
         edges = np.array(c['edges'], dtype='float64') * sc
